@@ -14,6 +14,12 @@ CHECKS = {
         design='DESIGN.md 5 C01',
         technique='bounded symbolic execution of the transpiled Rust checker (symx + z3) with semantic validity obligations over finite models decided by z3 (CEGIS over premise valuations); replay on the real binary',
     ),
+    'C02': dict(
+        text='Whatever the toolkit accepts and serialises is handed to the checker. Symbolic part (ids as z3 variables, acceptance decided by the checker transpiled from rust/src/lib.rs): call sequences against the serialising interpreter with the checker run on the emitted prefix after every call; generated modules with import graphs; one-rule modules (generalization, modus ponens, instantiate/dynamic_inst with every key order on axioms and axiom schemas) whose claim is the advertised conclusion, for both optimise settings. Concrete part (reported as such): every library lemma as a one-claim module at several argument tuples, the shipped modules and prover proofs, serialised with the real bytes() and run on the rustc-built binary.',
+        note='Trusted: z3, symx, rs2py (validated against the real binary in C05). Known findings D10a-c,e (the Python side has no well-formedness checks) are re-observed and reported as KNOWN-FINDING. Bounds: <= 3 calls (quick) / 4-6 (thorough); premises <= 4/5 nodes; lemma arguments 1 node.',
+        design='DESIGN.md 5 C02',
+        technique='bounded symbolic execution of the generator (symx + z3) composed with the transpiled Rust checker; concrete replays on the real binary',
+    ),
     'C03': dict(
         text='ProofExp.serialize (unmodified, both optimise settings, in-memory sinks) is executed symbolically on generated modules: import graphs (none, chain, diamond), declaration lists and claim choices by forking, every id symbolic (one level with ids up to 1000 so the 255/256 boundary is inside the domain). The emitted gamma and claim streams are decoded by an independent implementation of the documented machine and must equal the declaration in order, for both settings; symbol numbering must be injective; an unencodable id must raise. The ">256 symbols" clause is a separate concrete test (256 / 257 / 300 symbols through the real bytes()).',
         note='Trusted: z3, symx, vf/refm.py as decoder, my stand-in for bytes() (same range contract). Bounds: <= 2/3 axioms of <= 3 nodes per module, <= 2 claims, <= 4 modules.',
@@ -55,6 +61,11 @@ CHECKS = {
         note='Trusted: z3, symx, vf/oracle.py. Bounds: pattern <= 3/4, instance <= 4, values <= 2, equation lists <= 2, notation arguments <= 2/3 nodes.',
         design='DESIGN.md 5 C13',
     ),
+    'C08': dict(
+        text='Proof expressions generated from a grammar over the raw rules (prop1-3, axioms, instantiate and dynamic_inst with empty, identity, repeated and out-of-order bindings and partially instantiated values, modus ponens with the instantiated proof on either side, generalization, quantifier) with symbolic ids, plus library lemmas, are run through ten interpreter stacks; all must succeed with equal conclusions equal to the advertised one, or all must raise.',
+        note='Trusted: z3, symx, vf/oracle.py expansion for comparing conclusions. Bounds: expression depth <= 1 (quick) / 2 (thorough); lemma runs use concrete ids (a lemma costs seconds across the stacks) and are enumeration, not solver results.',
+        design='DESIGN.md 5 C08',
+    ),
     'C09': dict(
         text='Every propositional formula up to the bound goes through the real prover and each normal-form stage (on generated ConjForm trees as well); z3 decides over all truth assignments whether the formula is a tautology or unsatisfiable and whether a stage output is equivalent to its input, the returned proofs must conclude literally the pattern / its negation / the stage implications, and small proofs are replayed on a stateful interpreter. The resolution kernel is checked on every ordered clause list up to the bound.',
         note='Trusted: z3, vf/oracle.py expansion. Weakest fit of the technique among the claimed properties: metavariable ids must stay concrete, so the implementation side is covered by exhaustive forking and the solver decides the semantic oracle. Bounds: formulas <= 4/6 nodes over 2 metavariables (+ implication-only up to 5/7 nodes), ConjForm trees <= 4/5 leaves, clause lists <= 3/4 clauses.',
@@ -74,8 +85,6 @@ CHECKS = {
 }
 
 NOT_YET = {
-    'C02': 'check under construction in this session; not claimed until it runs',
-    'C08': 'check under construction in this session; not claimed until it runs',
     'C15': 'check under construction in this session; not claimed until it runs',
     'C18': 'check under construction in this session; not claimed until it runs',
     'C19': 'check under construction in this session; not claimed until it runs',
